@@ -146,6 +146,7 @@ class Universe(object):
             node = make(cls["node"], lbl)
         elif ck == "anynode":
             kw["id"] = lbl
+            kw["name"] = lbl  # Node.__repr__ (used in error messages) needs a name on every ancestor of a Node
             node = make(cls["anynode"])
         elif ck in ("mixin", "light"):
             if kw:
